@@ -3,7 +3,9 @@ package main
 import (
 	"fmt"
 	"go/ast"
+	"go/token"
 	"go/types"
+	"math/big"
 	"path/filepath"
 	"sort"
 	"strings"
@@ -105,6 +107,31 @@ func VerifyFunc(w *World, key string, c *Contract) (rep *FuncReport) {
 	for _, r := range c.Requires {
 		st.assume(env.evalBool(r.E))
 	}
+	for _, u := range c.Uses {
+		found := false
+		for _, lm := range w.Lemmas {
+			if lm.Name == u && (lm.Pkg == c.Pkg || true) {
+				lenv := &SpecEnv{in: in, st: st, vars: map[string]Val{}, pkgPath: lm.Pkg, lets: map[string]SExpr{}}
+				h := lenv.evalBool(lm.E)
+				if lm.Induct != "" {
+					// the induction proves the statement for the induction variable >= 0
+					if q, ok := lm.E.(*SQuant); ok {
+						guarded := &SQuant{Forall: true, Vars: q.Vars, Body: &SBin{Op: "==>", L: &SBin{Op: ">=", L: &SIdent{Name: lm.Induct}, R: &SIntLit{V: bigZero()}}, R: q.Body}}
+						h = lenv.evalBool(guarded)
+					}
+				}
+				st.assume(h)
+				found = true
+				if lm.Axiom {
+					in.note("axiom (trusted lemma): " + lm.Name)
+				}
+				break
+			}
+		}
+		if !found {
+			panic(&Unsupported{Msg: "contract of " + key + " uses unknown lemma " + u})
+		}
+	}
 	// vacuity: requires satisfiable (expected sat)
 	in.obls = append(in.obls, &Obligation{Name: key + "#pre-sat", Func: key, Kind: "presat", Pos: w.Fset.Position(fd.Pos()),
 		Hyps: append([]Term(nil), st.hyps...), Goal: TFalse, Expect: "sat", Text: "requires is satisfiable"})
@@ -195,6 +222,14 @@ func (f *Frame) checkPost(c *Contract, sig *types.Signature, o Outcome, rets []V
 	}
 	if len(rets) == 1 {
 		env.vars["result"] = rets[0]
+	}
+	if o.Kind == OReturn {
+		so := f.staticRetOrd(o.Pos)
+		for _, d := range c.DeadReturns {
+			if d == so {
+				f.oblige(st, "post", fmt.Sprintf("%s#dead:return%d@ret%d", f.key, d, retIdx), o.Pos, TFalse, fmt.Sprintf("return statement %d is unreachable", d))
+			}
+		}
 	}
 	for i, e := range c.Ensures {
 		goal := env.evalBool(e.E)
@@ -382,10 +417,66 @@ func VerifyLemma(w *World, lm *Lemma) *FuncReport {
 			panic(&Unsupported{Msg: "lemma " + lm.Name + " uses unknown lemma " + u})
 		}
 	}
+	if lm.Induct != "" {
+		q, ok := lm.E.(*SQuant)
+		if !ok || !q.Forall {
+			panic(&Unsupported{Msg: "induction lemma " + lm.Name + " must be a top-level forall"})
+		}
+		var rest []SBinder
+		found := false
+		for _, b := range q.Vars {
+			if b.Name == lm.Induct {
+				found = true
+				continue
+			}
+			rest = append(rest, b)
+		}
+		if !found {
+			panic(&Unsupported{Msg: "induction variable " + lm.Induct + " not bound in " + lm.Name})
+		}
+		inner := SExpr(q.Body)
+		if len(rest) > 0 {
+			inner = &SQuant{Forall: true, Vars: rest, Body: q.Body}
+		}
+		at := func(t Term) Term { return env.bind(lm.Induct, Sc{t}).evalBool(inner) }
+		base := at(IntLit(0))
+		k := in.D.fresh("k_ind", SInt)
+		ih := at(k)
+		step := at(Add(k, IntLit(1)))
+		in.obls = append(in.obls, &Obligation{Name: "L:" + lm.Name + ".base", Func: rep.Key, Kind: "lemma", Pos: w.Fset.Position(0),
+			Hyps: hyps, Goal: base, Text: lm.Text + "  [" + lm.Induct + " = 0]", Lemma: true})
+		in.obls = append(in.obls, &Obligation{Name: "L:" + lm.Name + ".step", Func: rep.Key, Kind: "lemma", Pos: w.Fset.Position(0),
+			Hyps: append(append([]Term(nil), hyps...), Le(IntLit(0), k), ih), Goal: step, Text: lm.Text + "  [" + lm.Induct + " -> " + lm.Induct + "+1]", Lemma: true})
+		in.note("lemma " + lm.Name + ": natural-number induction on " + lm.Induct + " (values < 0 are outside the lemma; state " + lm.Induct + " >= 0 where it is used)")
+		return rep
+	}
 	goal := env.evalBool(lm.E)
 	in.obls = append(in.obls, &Obligation{Name: "L:" + lm.Name, Func: rep.Key, Kind: "lemma", Pos: w.Fset.Position(0),
 		Hyps: hyps, Goal: goal, Text: lm.Text, Lemma: true})
 	return rep
 }
+
+// staticRetOrd: ordinal (source order) of the return statement at pos.
+func (f *Frame) staticRetOrd(pos token.Pos) int {
+	if f.decl == nil || f.decl.Body == nil {
+		return 0
+	}
+	n, found := 0, 0
+	ast.Inspect(f.decl.Body, func(x ast.Node) bool {
+		if _, ok := x.(*ast.FuncLit); ok {
+			return false
+		}
+		if r, ok := x.(*ast.ReturnStmt); ok {
+			n++
+			if r.Pos() == pos {
+				found = n
+			}
+		}
+		return true
+	})
+	return found
+}
+
+func bigZero() *big.Int { return new(big.Int) }
 
 var _ = ast.Unparen
